@@ -10,6 +10,7 @@ import (
 	"os"
 	"path/filepath"
 	"sort"
+	"strconv"
 	"strings"
 
 	"github.com/hknutzen/Netspoc-Approve/go/pkg/drc"
@@ -89,11 +90,29 @@ func genBodyS(r *RNG, groups []string, b *asaDev) string {
 		act = "deny"
 	}
 	proto := Pick(r, []string{"tcp", "tcp", "udp", "ip"})
+	logOpt := func() string {
+		// `log`, or `log LEVEL` (canonical: the number; 6 is the default and never written)
+		if r.Chance(40) {
+			return " log " + Pick(r, []string{"0", "3", "4", "5", "7"})
+		}
+		return " log"
+	}
+	if r.Chance(7) {
+		// ICMP line: without type, or with one (canonical: the number)
+		s := fmt.Sprintf("%s icmp %s %s", act, genAddr(r, groups), genAddr(r, groups))
+		if r.Chance(50) {
+			s += " " + Pick(r, []string{"0", "8", "3"})
+		}
+		if r.Chance(45) {
+			s += logOpt()
+		}
+		return s
+	}
 	s := fmt.Sprintf("%s %s %s %s", act, proto, genAddr(r, groups), genAddr(r, groups))
 	if g := svcFor(r, b, proto); proto != "ip" && g != "" && r.Chance(45) {
 		s += " object-group " + g
 		if r.Chance(8) {
-			s += " log"
+			s += logOpt()
 		}
 		return s
 	}
@@ -101,7 +120,7 @@ func genBodyS(r *RNG, groups []string, b *asaDev) string {
 		s += fmt.Sprintf(" eq %d", Pick(r, []int{22, 25, 53, 80, 443}))
 	}
 	if r.Chance(8) {
-		s += " log"
+		s += logOpt()
 	}
 	return s
 }
@@ -357,8 +376,8 @@ func genDevice(r *RNG, b *asaDev) (*asaDev, []string) {
 				}
 			case 3:
 				i := r.Intn(len(ls))
-				if strings.HasSuffix(ls[i], " log") {
-					ls[i] = strings.TrimSuffix(ls[i], " log")
+				if stripLog(ls[i]) != ls[i] {
+					ls[i] = stripLog(ls[i])
 				} else {
 					ls[i] += " log"
 				}
@@ -593,6 +612,25 @@ func respell(r *RNG, text string, target bool) string {
 			if w[j] == "eq" {
 				if n, ok := portNumbers[w[j+1]]; ok && (w[1] == "tcp" || w[1] == "udp" && n == "domain") {
 					w[j+1] = n
+				}
+			}
+		}
+		for j := 2; j < len(w); j++ {
+			if w[j] == "log" && j+1 < len(w) {
+				// a device shows the level by name
+				if n, err := strconv.Atoi(w[j+1]); err == nil && n < len(logLevelNames) {
+					w[j+1] = logLevelNames[n]
+				}
+			} else if w[j] == "log" && target && r.Chance(30) {
+				// the default level written out
+				w = append(w, Pick(r, []string{"6", "informational"}))
+				break
+			}
+		}
+		if w[1] == "icmp" {
+			for j := 2; j < len(w); j++ {
+				if n, ok := icmpTypeNames[w[j]]; ok && w[j-1] != "host" && w[j-1] != "log" {
+					w[j] = n
 				}
 			}
 		}
